@@ -162,6 +162,18 @@ func (x *Exec) invoke(cfg *Config, f *Frame, tg target, args []Val, dest ssa.Val
 			x.inlined[fullKey(body)] = true
 			x.indexDebug(body)
 			nf := &Frame{fn: body, regs: map[ssa.Value]Val{}, block: body.Blocks[0], depth: f.depth + 1, isDefer: isDefer}
+			if fn.Origin() == nil && len(fn.TypeArgs()) == 0 && f.targs != nil && fn.TypeParams() != nil && fn.TypeParams().Len() > 0 {
+				// generic body called from its instantiation wrapper: same type arguments
+				nf.targs = f.targs
+			}
+			if fn.Origin() != nil && len(fn.TypeArgs()) > 0 {
+				if tps := fn.Origin().TypeParams(); tps != nil && tps.Len() == len(fn.TypeArgs()) {
+					nf.targs = map[string]types.Type{}
+					for k := 0; k < tps.Len(); k++ {
+						nf.targs[tps.At(k).Obj().Name()] = fn.TypeArgs()[k]
+					}
+				}
+			}
 			if !isDefer {
 				if dest != nil {
 					nf.callInstr = dest.(ssa.Instruction)
